@@ -42,5 +42,6 @@ LEVEL_TEXT = ("acquire/release/take_ownership/free under function contracts; p_s
               "namespace state gives a fresh counter with the new value. Only the handle's own key is ever passed to sem_* (other names unaffected).")
 LEVEL_NOTE = ("Trusted: the ghost kernel model in env/posix_sem.c (written from POSIX), abstract string functions, p_ipc_get_platform_key as a deterministic collision-free key "
               "(SHA-1 injectivity assumed), allocator model. Cross-process/thread sharing of one counter and non-blocking of acquire while units are available are the kernel's "
-              "semaphore semantics (the model lets sem_wait return 0 only by decrementing a positive counter). Concurrent creators racing between two sem_* calls of one library "
-              "call are not covered by the sequential contracts.")
+              "semaphore semantics (the model lets sem_wait return 0 only by decrementing a positive counter). Processes that unlink or re-create the name between two sem_* calls "
+              "of one p_semaphore_new are covered by unit new_race (environment step between the calls: a counter this call creates holds the given value, the handle is bound to a counter the name "
+              "denoted at the successful sem_open, failure leaves nothing); nothing else about concurrent callers is decided.")
